@@ -471,10 +471,10 @@ static WATCHDOG: std::sync::Once = std::sync::Once::new();
 static HANGS: std::sync::atomic::AtomicUsize = std::sync::atomic::AtomicUsize::new(0);
 
 /// 30 s per request (`C16_HANG_SECS`); once three requests did not come back the verdict is in and the remaining requests
-/// get 5 s each, so that a parser that spins on a whole family of inputs does not cost half a minute per member
+/// get 1 s each (the verdict no longer depends on them), so that a parser that spins on a whole family of inputs does not cost half a minute per member
 fn hang_limit() -> std::time::Duration {
 	let base = std::env::var("C16_HANG_SECS").ok().and_then(|v| v.parse().ok()).unwrap_or(30);
-	std::time::Duration::from_secs(if HANGS.load(std::sync::atomic::Ordering::SeqCst) >= 3 { base.min(5) } else { base })
+	std::time::Duration::from_secs(if HANGS.load(std::sync::atomic::Ordering::SeqCst) >= 3 { base.min(1) } else { base })
 }
 
 fn start_watchdog() {
